@@ -46,7 +46,7 @@ def ruleset_for(case, level):
     return ts.RuleSet(mn.rules + extra)
 
 
-def why_not_site(case, rs, side, file, line, text, level, proj_path):
+def why_not_site(case, rs, side, file, line, op):
     from lib.monitors import taint_shim as ts
     if not (rs.sources() if side == "source" else rs.sinks()):
         return "flow-under-empty-rules"
@@ -54,9 +54,7 @@ def why_not_site(case, rs, side, file, line, text, level, proj_path):
         sites, _ = ts.find_sites(case["files"], rs, relax=(relax,))
         if any(s.side == side and s.file == file and s.line == line for s in sites):
             return f"rule-restriction-ignored:{relax}"
-    if FROM_CODE is not None and FROM_CODE.matches(side, os.path.join(proj_path, file), line, text or "", ignore_unit=True):
-        return f"rule-restriction-ignored:unit:from-code-{side}-rule"
-    return f"{side}-matches-no-rule"
+    return f"{side}-matches-no-rule:{op}"
 
 
 def judge(item):
@@ -64,7 +62,8 @@ def judge(item):
     import ast
     from lib import gen_flow
     from lib.monitors import taint_shim as ts
-    tag, case, level = item
+    tag, case, level = item[:3]
+    compensate = item[3] if len(item) > 3 else ()
     rs = ruleset_for(case, level)
     sites, _ = ts.find_sites(case["files"], rs)
     src_sites = {}
@@ -72,7 +71,7 @@ def judge(item):
     for s in sites:
         (src_sites if s.side == "source" else snk_sites).setdefault((s.file, s.line), []).append(s)
     dyn = ts.run_dynamic(case["files"], case["main"], [tuple(e) for e in case["entries"]], sites)
-    lres = c10.run_lian_case(case, rs, tag)
+    lres = c10.run_lian_case(case, rs, tag, compensate=compensate)
     proj_path = os.path.join(common.scratch(), f"flow_{tag}", "proj")
     res = {"tag": tag, "level": level, "status": lres["status"], "detail": lres.get("detail"), "raw_flows": lres["raw"],
            "reported": sorted(set(lres["flows"])), "fails": [], "judged": 0, "justified": 0, "dynamic": len(dyn.pairs),
@@ -115,12 +114,12 @@ def judge(item):
     for pr in res["reported"]:
         sf, sl, kf, kl = pr
         res["judged"] += 1
-        txt = lres.get("texts", {}).get(pr, ("", ""))
+        txt = lres.get("texts", {}).get(pr, ("", "", None, None))
         why = None
         if (sf, sl) not in src_sites:
-            why = why_not_site(case, rs, "source", sf, sl, txt[0], level, proj_path)
+            why = why_not_site(case, rs, "source", sf, sl, txt[2])
         elif (kf, kl) not in snk_sites:
-            why = why_not_site(case, rs, "sink", kf, kl, txt[1], level, proj_path)
+            why = why_not_site(case, rs, "sink", kf, kl, txt[3])
         elif res["closure_supported"]:
             loc = f"src:{sf}:{sl}"
             ss = snk_sites[(kf, kl)]
@@ -130,10 +129,7 @@ def judge(item):
                     res["allowed_imprecise"] += 1
             else:
                 kind = ss[0].kind
-                if FROM_CODE is not None and FROM_CODE.matches("sink", os.path.join(proj_path, kf), kl, txt[1] or "", ignore_unit=True) \
-                        and depends(clo[""], ss, loc, all_positions=True):
-                    why = "rule-restriction-ignored:unit:from-code-sink-rule"
-                elif depends(clo[""], ss, loc, all_positions=True):
+                if depends(clo[""], ss, loc, all_positions=True):
                     why = {"call": "wrong-argument-position", "mcall": "wrong-argument-position",
                            "fwrite": "wrong-argument-position:field-write-receiver", "rwrite": "wrong-argument-position:record-write-other-key"}[kind]
                     if kind == "mcall":
@@ -142,6 +138,11 @@ def judge(item):
                         via_args = any(loc in clo[""].expr_reach(kf, a) for a in n.args)
                         if not via_args:
                             why = "wrong-argument-position:method-call-receiver"
+                    if kind in ("call", "mcall") and FROM_CODE is not None and \
+                            FROM_CODE.matches("sink", os.path.join(proj_path, kf), kl, txt[1] or "", ignore_unit=True):
+                        # sink_from_code.yaml has a rule for this line whose symbol occurs in the statement text: lian applies it
+                        # to every file when it computes the sink's tag, and then every operand counts
+                        why = "rule-restriction-ignored:unit:from-code-sink-rule"
                 elif depends(closure(("callee",)), ss, loc):
                     why = "analysed-callee-drops-value"
                 elif depends(closure(("callee", "field")), ss, loc):
@@ -239,7 +240,10 @@ def main():
         if v["judged"]:
             chk.nontrivial_case(tag)
         for sig, desc, cs in v["fails"]:
-            chk.fail(sig, desc, cs)
+            if sig == "unjustified:no-dependence" and not (len(r.item) > 3 and r.item[3]):
+                pending_nodep.append((r.item, sig, desc, cs))
+            else:
+                chk.fail(sig, desc, cs)
         for w, n in v["why_counts"].items():
             chk.count(f"unjustified flows: {w}", n)
         if samples < 3 and v["judged"] >= 2 and level == "extended":
@@ -249,6 +253,7 @@ def main():
         return v
 
     prog_of_tag = {}
+    pending_nodep = []
     for r in forkpool.run_jobs(judge, jobs, timeout=timeout, tag="c11"):
         v = consume(r)
         if v is None:
@@ -257,6 +262,23 @@ def main():
         pk = case["pid"] if not rp else "replay"
         reported[(pk, level)] = {tuple(x) for x in v["reported"]}
         prog_of_tag[pk] = case
+    # flows outside the closure: re-run with the compensation switches to name the mechanism
+    if pending_nodep:
+        todo = {}
+        for item, sig, desc, cs in pending_nodep:
+            todo.setdefault(item[0], item)
+        switches = list(c10.COMPENSATIONS)
+        cjobs = [(f"{tag}_c{i}", item[1], item[2], (sw,)) for tag, item in list(todo.items())[:200] for i, sw in enumerate(switches)]
+        cres = {}
+        for r in forkpool.run_jobs(judge, cjobs, timeout=timeout, tag="c11comp"):
+            if r.status == "ok":
+                cres[(r.item[0].rsplit("_c", 1)[0], r.item[3][0])] = {tuple(x) for x in r.value["reported"]}
+                chk.count("re-runs with a compensation switch (classification)", 1)
+        for item, sig, desc, cs in pending_nodep:
+            cured = [sw for sw in switches if (item[0], sw) in cres and tuple(cs["flow"]) not in cres[(item[0], sw)]]
+            if len(cured) == 1:
+                sig = sig + ":" + cured[0]
+            chk.fail(sig, desc, cs)
     # gadget statistics (what the workload contained)
     for pk, case in prog_of_tag.items():
         chk.count("programs", 1)
